@@ -12,6 +12,28 @@ open WorkflowModel Engine
 
 variable (cfg : Cfg) (p : Proc) (status : Status) (pa : Int) (e : Event)
 
+/-- THE VERSION GATE (decision logic of `stepConsumer` on the record the store returned). Older announcement: return
+normally at once — nothing else happens. -/
+theorem C04_gate_old (fn : Rec → M (Except Abort FnRes × Rec)) (env : Env) (st : OpSt) (record : Rec)
+    (hold : record.version > e.version) : stepGate cfg p pa e record fn env st = (.ok (), st) := by
+  have hg : Gen.G.stepSkipOld record.version e.version = true := by simp [Gen.G.stepSkipOld]; omega
+  simp [stepGate, hg, pure_run]
+
+/-- Newer announcement (lagging read): fail at once — nothing else happens. -/
+theorem C04_gate_newer (fn : Rec → M (Except Abort FnRes × Rec)) (env : Env) (st : OpSt) (record : Rec)
+    (hnew : record.version < e.version) : stepGate cfg p pa e record fn env st = (.error (.err errStale), st) := by
+  have hg1 : Gen.G.stepSkipOld record.version e.version = false := by simp [Gen.G.stepSkipOld]; omega
+  have hg2 : Gen.G.stepStale record.version e.version = true := by simp [Gen.G.stepStale]; omega
+  simp [stepGate, hg1, hg2, throwA_run]
+
+/-- Equal versions and a run that is not stopped: the event is handled (the step runs). -/
+theorem C04_gate_current (fn : Rec → M (Except Abort FnRes × Rec)) (env : Env) (st : OpSt) (record : Rec)
+    (heq : record.version = e.version) (hrun : Gen.stopped record.runState = false) :
+    stepGate cfg p pa e record fn env st = stepRun cfg p pa record fn env st := by
+  have hg1 : Gen.G.stepSkipOld record.version e.version = false := by simp [Gen.G.stepSkipOld]; omega
+  have hg2 : Gen.G.stepStale record.version e.version = false := by simp [Gen.G.stepStale]; omega
+  simp [stepGate, hg1, hg2, Gen.G.stepStopped, hrun]
+
 /-- An announcement older than the record the store returns: nothing is written, no function is invoked; the handler
 returns normally (so the event is acknowledged) unless the lookup itself failed. -/
 theorem C04_old_event_noop (fn : Rec → M (Except Abort FnRes × Rec)) (env : Env) (st : OpSt) (record : Rec)
@@ -19,8 +41,7 @@ theorem C04_old_event_noop (fn : Rec → M (Except Abort FnRes × Rec)) (env : E
     (stepHandle cfg p status pa e fn env st).2.sys = st.sys ∧
     (stepHandle cfg p status pa e fn env st).2.outI = st.outI ∧
     (env.faults.lookup st.callN = none → st.cancelled = false → (stepHandle cfg p status pa e fn env st).1 = .ok ()) := by
-  unfold stepHandle
-  rw [bind_run]
+  rw [stepHandle_run]
   rcases hl : lookup e.runId env st with ⟨r, st'⟩
   cases r with
   | error a =>
@@ -33,24 +54,21 @@ theorem C04_old_event_noop (fn : Rec → M (Except Abort FnRes × Rec)) (env : E
   | ok v =>
     obtain ⟨hv, hsys, hout, _⟩ := lookup_ok hl
     rw [hread] at hv; subst hv
-    have hg : Gen.G.stepSkipOld record.version e.version = true := by simp [Gen.G.stepSkipOld]; omega
-    simp only [hg, if_true]
-    exact ⟨hsys, hout, fun _ _ => rfl⟩
+    simp only [C04_gate_old cfg p pa e fn env st' record hold]
+    exact ⟨hsys, hout, fun _ _ => trivial⟩
 
 /-- … and the function is never consulted: the handler's behaviour does not depend on it -/
 theorem C04_old_event_fn_irrelevant (fn fn' : Rec → M (Except Abort FnRes × Rec)) (env : Env) (st : OpSt) (record : Rec)
     (hread : (lookupRes st.sys e.runId st.stale).2 = some record) (hold : record.version > e.version) :
     stepHandle cfg p status pa e fn env st = stepHandle cfg p status pa e fn' env st := by
-  unfold stepHandle
-  rw [bind_run, bind_run]
+  rw [stepHandle_run, stepHandle_run]
   rcases hl : lookup e.runId env st with ⟨r, st'⟩
   cases r with
   | error a => rfl
   | ok v =>
     obtain ⟨hv, _⟩ := lookup_ok hl
     rw [hread] at hv; subst hv
-    have hg : Gen.G.stepSkipOld record.version e.version = true := by simp [Gen.G.stepSkipOld]; omega
-    simp only [hg, if_true]
+    simp only [C04_gate_old cfg p pa e _ env st' record hold]
 
 /-- An announcement NEWER than what the store returns (a lagging read replica): the handler fails — so the event is
 neither acknowledged nor dropped — without writing anything and without invoking any function. -/
@@ -59,8 +77,7 @@ theorem C04_newer_event_retried (fn : Rec → M (Except Abort FnRes × Rec)) (en
     (∃ a, (stepHandle cfg p status pa e fn env st).1 = .error a) ∧
     (stepHandle cfg p status pa e fn env st).2.sys = st.sys ∧
     (stepHandle cfg p status pa e fn env st).2.outI = st.outI := by
-  unfold stepHandle
-  rw [bind_run]
+  rw [stepHandle_run]
   rcases hl : lookup e.runId env st with ⟨r, st'⟩
   cases r with
   | error a =>
@@ -69,9 +86,7 @@ theorem C04_newer_event_retried (fn : Rec → M (Except Abort FnRes × Rec)) (en
   | ok v =>
     obtain ⟨hv, hsys, hout, _⟩ := lookup_ok hl
     rw [hread] at hv; subst hv
-    have hg1 : Gen.G.stepSkipOld record.version e.version = false := by simp [Gen.G.stepSkipOld]; omega
-    have hg2 : Gen.G.stepStale record.version e.version = true := by simp [Gen.G.stepStale]; omega
-    simp only [hg1, hg2, if_true, Bool.false_eq_true, if_false]
+    simp only [C04_gate_newer cfg p pa e fn env st' record hnew]
     exact ⟨⟨_, rfl⟩, hsys, hout⟩
 
 /-- At the level of the consume loop: a delivery whose handler fails moves no cursor (the event is received again). -/
